@@ -1,8 +1,9 @@
 import VlsModel.Drv.Common
-/- Line-protocol models serving property C18 (none yet). -/
+import VlsModel.Drv.Keys
+/- Line-protocol models serving property C18. -/
 namespace VlsModel.Drv.C18
 open VlsModel.Drv
 
-def models : List (String × Model) := []
+def models : List (String × Model) := [ ("keys", Keys.model) ]
 
 end VlsModel.Drv.C18
